@@ -104,3 +104,14 @@ Lemma lazy_lock_refuted :
 Proof.
   eexists. eexists. eexists. split; [vm_compute; reflexivity|]. repeat split; try reflexivity. cbn. discriminate.
 Qed.
+
+(* the constructor wraps what it is given: whatever wrappers were already in front of the primitive (possibly shared with
+   another solver) stay in the chain, in order, below the new ones *)
+Lemma install_keeps_wrappers me ex p : exists pre, chain (install me ex p) = pre ++ chain p.
+Proof.
+  destruct me, ex; cbn.
+  - exists [TranspilingW (BatchingMutexW p); BatchingMutexW p]. reflexivity.
+  - exists [TranspilingW (MutexW p); MutexW p]. reflexivity.
+  - exists [TranspilingW p]. reflexivity.
+  - exists [TranspilingW p]. reflexivity.
+Qed.
